@@ -34,7 +34,7 @@ func lastStep(body []byte, evalToo bool) (*stepCtx, *Fail) {
 	if len(real) == 0 {
 		return nil, failf("harness-shape", "no bias in the case")
 	}
-	out, rec := decideProbed(body, evalToo, false)
+	out, rec := decideProbed(body, evalToo, true)
 	c := &stepCtx{v: v, m: m, out: out, rec: rec, idx: len(real) - 1}
 	c.name = str(real[c.idx]["name"])
 	c.props = asM(real[c.idx]["props"])
